@@ -1,7 +1,7 @@
 \* quick tier, part 1: every history of length <= 2 over the full alphabet
 CONSTANTS Alphabet = "full"
  MaxLen = 2
- Skels = {"A", "B", "C", "D", "E", "F"}
+ Skels = {"A", "B", "C", "D", "E"}
 INIT Init
 NEXT Next
 INVARIANT TypeOK
